@@ -947,6 +947,55 @@ def rule_s_reserve(ctx):
             if not guarded:
                 R.viol("%s:infallible-allocation" % b2.path, c2.where(), "%s returns a Result for allocation failures but allocates with %s, which panics or aborts instead "
                        "of returning the error" % (b2.path, c2.tname))
+    # .. and across calls: a function that reports allocation failures (returns Result<_, TryReserveError>) never calls an *infallible grower* —
+    # a function that asks the sizing helper for the infallible allocation (`grow`), or calls hashbrown's with_capacity outside a fallibility test,
+    # or calls such a function without itself being able to report the failure (`reserve` at every layer).  `try_reserve` calling `reserve` / `grow`
+    # would panic or abort where it promises an Err.
+    def returns_try_err(bd):
+        t0 = T[bd.locals[0]["ty"]]
+        return t0.get("adt") == "core::result::Result" and "TryReserveError" in t0["s"]
+    inf = {}
+    for i in R.instances:
+        if i.get("callee") and i.get("fallible") is False and i.get("fn") in ctx.facts.bodies and not returns_try_err(ctx.facts.closure_parent(ctx.facts.bodies[i["fn"]])):
+            inf[ctx.facts.closure_parent(ctx.facts.bodies[i["fn"]]).path] = "asks %s for the infallible allocation" % i["callee"]
+    for b2 in ctx.facts.bodies.values():
+        if b2.kind == "Closure" or returns_try_err(b2):
+            continue
+        if any(c2.tname == HBT + "with_capacity" and not b2.is_cleanup(c2.loc.bb) for c2 in ctx.calls(b2)) and self_s_prefix(ctx, b2) is not None \
+                and b2.arg_count >= 1 and b2.name not in ("with_capacity", "new", "default", "clone", "clone_with_hasher"):
+            inf.setdefault(b2.path, "allocates with hashbrown's with_capacity")
+    changed = True
+    rounds = 0
+    while changed and rounds < 8:
+        changed = False
+        rounds += 1
+        for b2 in ctx.facts.bodies.values():
+            own = ctx.facts.closure_parent(b2)
+            if own.path in inf or returns_try_err(own):
+                continue
+            for c2 in ctx.calls(b2):
+                lc2 = c2.local_callee()
+                if lc2 is not None and lc2.path in inf and not b2.is_cleanup(c2.loc.bb) and lc2.name in ("reserve", "grow") :
+                    inf[own.path] = "calls %s" % lc2.path
+                    changed = True
+                    break
+    nf = 0
+    for b2 in ctx.facts.bodies.values():
+        own = ctx.facts.closure_parent(b2)
+        if not returns_try_err(own):
+            continue
+        for c2 in ctx.calls(b2):
+            lc2 = c2.local_callee()
+            if lc2 is None or b2.is_cleanup(c2.loc.bb):
+                continue
+            if lc2.path in inf:
+                nf += 1
+                R.inst(fn=own.path, site=c2.where(), callee=lc2.path, verdict="VIOLATION")
+                R.viol("%s:calls-infallible:%s" % (own.path, lc2.name), c2.where(), "%s returns a Result for allocation failures but calls %s, which %s: a capacity "
+                       "overflow or allocation failure panics / aborts instead of coming back as Err" % (own.path, lc2.path, inf[lc2.path]))
+    R.inst(fn="*", check="fallible operations call no infallible grower", infallible_growers=sorted(inf), verdict="ok" if not nf else "found")
+    if not inf:
+        R.anchor("infallible-growers", "expected the infallible growth path (grow, reserve) to be found")
     fns_inplace = {i["fn"] for i in R.instances if "amount" in i or i.get("verdict") == "VIOLATION"}
     if n < 2 or len(fns_inplace) < 2:
         R.anchor("in-place-sites", "expected an in-place reserve site in each of reserve and try_reserve, found %d in %d functions" % (n, len(fns_inplace)))
